@@ -25,7 +25,7 @@
 From P2 Require Import Base.Prelude Sem.Num Sem.Syntax Sem.Ops Sem.Lib Sem.Ref Sem.Gen Sem.Sim
      Sem.SimExamples Sem.Pinned Sem.RelProofs Sem.OpsProofs Sem.LibProofs Sem.GenProofs Sem.PinnedProofs
      Sem.GenBuggy Sem.GenBuggyProofs Sem.Examples Generated.ValueCfg Run.C01Run.
-From P2 Require Import Lex.Token Syn.Parse Syn.Full Syn.Lower Sem.FromText.
+From P2 Require Import Lex.Token Syn.Parse Syn.Full Syn.Lower Syn.RenderText Sem.FromText.
 From P2 Require Lex.Tok Lex.TokProofs Syn.Render.
 From P2 Require Lib.Builtins Lib.SemLibAgreeProofs.
 
@@ -254,6 +254,29 @@ Theorem C01_text_layout_irrelevant : forall tc known fuel argnames items items' 
   = run_text tc known fuel argnames (P2.Lex.Tok.layout_text items') args.
 Proof. exact text_layout_irrelevant_run. Qed.
 
+(* C01 from the CANONICAL TEXT of a program tree: C01_from_text with the layout hypotheses replaced by the boolean
+   [spellable] of Syn/RenderText.v (C03_render_roundtrip) - everything about the text is decidable: render_text writes
+   the tokens of the tree as lexemes separated by one blank; the text yields a, and the function generated from it
+   agrees with the reference semantics of a.  For the value configuration the conditions of [spellable] on the
+   configuration hold whenever the blank is neither letter nor digit, so only the per-token check remains. *)
+Theorem C01_from_rendered_text : forall tc known fuel argnames r e u a args1 args2,
+  spellable tc value_pcfg r = true ->
+  fwf value_pcfg r = true -> ferase value_pcfg (value_ids argnames) r = Some (e, u) -> lower e = Some a ->
+  gen_check (S (ast_size a)) (map Some argnames) [] a = true -> side_ok a = true ->
+  Forall2 vrel args1 args2 -> length args2 = length argnames ->
+  text_ast tc argnames (render_text value_pcfg r) = Some a /\
+  orel (eval known fuel (combine argnames args1) a)
+       (run_text tc known fuel argnames (render_text value_pcfg r) args2).
+Proof. exact from_rendered_text. Qed.
+
+Theorem C01_value_render_roundtrip : forall comments letter number argnames r e u,
+  letter 32%N = false -> number 32%N = false ->
+  forallb (spell_tok (value_tcfg comments letter number)) (fflatten value_pcfg r) = true ->
+  fwf value_pcfg r = true -> ferase value_pcfg (value_ids argnames) r = Some (e, u) ->
+  parse_tokens value_pcfg (value_ids argnames)
+    (P2.Lex.Tok.tokenize (value_tcfg comments letter number) (render_text value_pcfg r)) = POk e.
+Proof. exact value_render_roundtrip. Qed.
+
 (* the configuration of value.New() satisfies the side conditions of C03 / C15 *)
 Theorem C01_value_configuration_ok :
   P2.Syn.Render.table_ok value_pcfg = true /\
@@ -345,6 +368,42 @@ Theorem C01_lib_agrees_with_C07_models : forall (app : value -> list value -> re
 Proof. exact Lib.SemLibAgreeProofs.lib_agrees_lemma. Qed.
 
 
+(* canonical text, non-vacuity: the tree of the program above is spellable in the value configuration (by computation);
+   its canonical text is  let k = 2 ; [ 1 , 2 , x ] . map ( e -> e * k + y ) . sum ( )  - the theorem applies and both
+   sides give 19.  The same tree with the let-name  const  (a keyword of value.New(), not of the parser) is well-formed
+   and denotes the same AST, but is rejected by [spellable]; quoting is not attempted for ASCII words *)
+Example C01_from_rendered_text_nonvacuous :
+  spellable ft_tc value_pcfg ft_tree = true /\
+  render_text value_pcfg ft_tree
+  = [108; 101; 116; 32; 107; 32; 61; 32; 50; 32; 59; 32; 91; 32; 49; 32; 44; 32; 50; 32; 44; 32; 120; 32; 93; 32; 46; 32;
+     109; 97; 112; 32; 40; 32; 101; 32; 45; 62; 32; 101; 32; 42; 32; 107; 32; 43; 32; 121; 32; 41; 32; 46; 32; 115; 117;
+     109; 32; 40; 32; 41; 32]%N.
+Proof. split; vm_compute; reflexivity. Qed.
+
+Example C01_from_rendered_text_instance : forall fuel,
+  text_ast ft_tc ft_args (render_text value_pcfg ft_tree) = Some ft_ast /\
+  orel (eval value_methods fuel (combine ft_args [VInt 5; VInt 1]) ft_ast)
+       (run_text ft_tc value_methods fuel ft_args (render_text value_pcfg ft_tree) [VInt 5; VInt 1]).
+Proof.
+  intros fuel. destruct C01_from_text_nonvacuous as (_ & W & (e & u & E & La) & G & S).
+  destruct C01_from_rendered_text_nonvacuous as (Hs & _).
+  apply (C01_from_rendered_text ft_tc value_methods fuel ft_args ft_tree e u ft_ast [VInt 5; VInt 1] [VInt 5; VInt 1]
+           Hs W E La G S); [|reflexivity].
+  repeat constructor; apply fo_vrel; reflexivity.
+Qed.
+
+Definition ft_tree_const : ft :=
+  FLet [99; 111; 110; 115; 116]%N (FNum [50]%N) (FBin 13 (FIdent [120]%N) (FIdent [99; 111; 110; 115; 116]%N)).
+Example C01_from_rendered_text_values :
+  run_text ft_tc value_methods 100 ft_args (render_text value_pcfg ft_tree) [VInt 5; VInt 1] = Ok (VInt 19) /\
+  spellable ft_tc value_pcfg ft_tree_const = false /\ fwf value_pcfg ft_tree_const = true /\
+  (exists e u, ferase value_pcfg (value_ids ft_args) ft_tree_const = Some (e, u)) /\
+  text_ast ft_tc ft_args (render_text value_pcfg ft_tree_const) = None.
+Proof.
+  split; [vm_compute; reflexivity|]. split; [vm_compute; reflexivity|]. split; [vm_compute; reflexivity|].
+  split; [eexists; eexists; vm_compute; reflexivity|vm_compute; reflexivity].
+Qed.
+
 Print Assumptions exec_sim.
 Print Assumptions C01_from_ast.
 Print Assumptions gen_check_implies_wf.
@@ -364,5 +423,7 @@ Print Assumptions C01_repaired_discipline_on_witness.
 Print Assumptions C01_from_text.
 Print Assumptions C01_from_text_tokens.
 Print Assumptions C01_text_layout_irrelevant.
+Print Assumptions C01_from_rendered_text.
+Print Assumptions C01_value_render_roundtrip.
 Print Assumptions C01_value_configuration_ok.
 Print Assumptions C01_lib_agrees_with_C07_models.
